@@ -32,6 +32,7 @@ pub struct Profile {
     pub settle_commits: u32,
     pub w_idle_nd: u32, // percent of transactions that are an idle non-durable commit followed by begin_read
     pub w_cursor: u32,  // percent of normal-table operations that are a gap-cursor session (needs --features cursor)
+    pub w_par: u32,     // percent of write transactions that begin with a multi-threaded section
 }
 
 impl Profile {
@@ -58,6 +59,7 @@ impl Profile {
             settle_commits: 3,
             w_idle_nd: 0,
             w_cursor: 0,
+            w_par: 0,
         };
         match name {
             "table" => base,
@@ -232,6 +234,21 @@ impl Profile {
             },
             // gap cursors (experimental_cursor): write sessions with runs of inserts in both directions, read sessions
             "cursor" => Profile { w_cursor: 45, w_reader: 8, w_savepoint: 3, ops_per_txn: 14, w_abort: 15, w_reopen: 3, ..base },
+            // one write transaction used from several threads (C16)
+            "shared" => Profile {
+                names: vec!["a", "b", "c", "d"],
+                multimaps: true,
+                w_par: 70,
+                w_savepoint: 12,
+                w_catalog: 2,
+                ops_per_txn: 5,
+                w_abort: 25,
+                w_reader: 4,
+                w_reopen: 2,
+                w_acct: 100,
+                w_settle: 3,
+                ..base
+            },
             other => panic!("unknown profile {other}"),
         }
     }
@@ -391,7 +408,40 @@ impl Gen {
     fn table_op(&mut self, rng: &mut StdRng) -> J {
         let names: Vec<String> = self.open.keys().cloned().collect();
         let n = names[rng.random_range(0..names.len())].clone();
-        let (kind, _kt, vt) = self.open[&n].clone();
+        let ty = self.open[&n].clone();
+        self.table_op_for(rng, n, ty)
+    }
+
+    /// several tables of the transaction used from their own threads, and a thread making savepoints
+    fn par_step(&mut self, rng: &mut StdRng) -> J {
+        let mut names: Vec<String> = self.p.names.iter().map(|s| s.to_string()).collect();
+        for i in (1..names.len()).rev() {
+            names.swap(i, rng.random_range(0..=i));
+        }
+        let nstreams = rng.random_range(2..=names.len().min(4));
+        let mut streams = vec![];
+        for n in names.into_iter().take(nstreams) {
+            let ty = match self.known.get(&n) {
+                Some(t) => t.clone(),
+                None => self.pick_type(rng, &n),
+            };
+            let nops = if rng.random_range(0..4) == 0 { rng.random_range(20..60) } else { rng.random_range(1..16) };
+            let ops: Vec<J> = (0..nops).map(|_| self.table_op_for(rng, n.clone(), ty.clone())).collect();
+            streams.push(json!({"n": n, "kind": ty.0, "kt": ty.1, "vt": ty.2, "ops": ops, "delay": rng.random_range(0..3000)}));
+        }
+        let hold = match rng.random_range(0..100) {
+            0..=19 => "sp",
+            20..=29 => "open",
+            _ => "",
+        };
+        let nsp = if hold.is_empty() { rng.random_range(0..4) } else { rng.random_range(1..4) };
+        let sp_names: Vec<String> = (0..nsp).map(|_| self.fresh("s")).collect();
+        let sp_drop: Vec<bool> = (0..nsp).map(|_| rng.random_range(0..3) == 0).collect();
+        json!({"e": "par", "streams": streams, "sp": {"names": sp_names, "drop": sp_drop, "gap": rng.random_range(0..2000)}, "hold": hold})
+    }
+
+    fn table_op_for(&mut self, rng: &mut StdRng, n: String, ty: Ty) -> J {
+        let (kind, _kt, vt) = ty;
         if kind == "m" {
             let k = self.key(rng, &n);
             return match rng.random_range(0..100) {
@@ -627,6 +677,17 @@ impl Gen {
                             2..=3 => self.queue.push_back(json!({"e": "qr", "on": true})),
                             _ => {}
                         }
+                    }
+                    if rng.random_range(0..100) < self.p.w_par {
+                        let par = self.par_step(rng);
+                        // sometimes roll the whole transaction back to a savepoint made during the parallel section
+                        let kept: Vec<String> = par["sp"]["names"].as_array().unwrap().iter().zip(par["sp"]["drop"].as_array().unwrap())
+                            .filter(|(_, d)| d.as_bool() == Some(false)).map(|(n, _)| n.as_str().unwrap().to_string()).collect();
+                        self.queue.push_back(par);
+                        if !kept.is_empty() && rng.random_range(0..100) < 40 {
+                            self.queue.push_back(json!({"e": "spreste", "s": kept[rng.random_range(0..kept.len())]}));
+                        }
+                        continue;
                     }
                     // savepoints must come before the transaction is dirty
                     if rng.random_range(0..100) < self.p.w_savepoint {
@@ -986,6 +1047,9 @@ impl Gen {
                 continue;
             }
             if e == "open" && self.open.contains_key(n) {
+                continue;
+            }
+            if matches!(e, "spreste" | "spdrop") && !self.sps.iter().any(|x| Some(x.as_str()) == s["s"].as_str()) {
                 continue;
             }
             return Some(s);
